@@ -16,7 +16,10 @@ RULE = ("Mutation operations with 1..n top-level fields (aliases, fragments, mer
         "finished. Invariant: for top-level response keys i < j (document order) every event under i precedes every "
         "event under j; every top-level field the reference executor resolves is invoked even if an earlier one failed; "
         "response keys are in document order and data equals the reference executor's. Non-trivial: >= 2 top-level "
-        "fields of which an earlier one has a nested resolver; distinct = (schema, text, world, configuration, schedule).")
+        "fields of which an earlier one has a nested resolver; distinct = (schema, text, world, configuration, schedule). "
+        "Plus six fixed *wide* mutations (120 to 1200 aliased top-level fields, every k-th one deferred) on BlockingExecutor, "
+        "Executor + blocking runtime, a real two-worker thread pool and asyncio: no exception, counter values 1..n in "
+        "response order, keys in document order (a wall-clock timeout there is inconclusive, never a violation).")
 ASSUMPTIONS = C8.ASSUMPTIONS
 BUDGET = {"quick": 45, "thorough": 800}
 
